@@ -99,6 +99,7 @@ var prop = hx.Prop[Case]{
 	Gen: func(t *rapid.T) Case {
 		cfg := hx.PolicyCfgGen(hx.DefaultCfg()).Draw(t, "cfg")
 		cfg.MaxMessageBytes = 4000 // every generated message but the "too big" one is far below this
+		cfg.Assembled = rapid.IntRange(0, 3).Draw(t, "assembled") == 0
 		if rapid.Bool().Draw(t, "permissive") {
 			// half of the cases accept and store by default so that deliveries are frequent
 			cfg.DefaultAccept, cfg.DefaultStore, cfg.RejectOrigin = true, true, nil
